@@ -135,7 +135,7 @@ impl Proc {
 pub struct Decision {
     /// logical process id
     pub p: String,
-    /// 'G' go, 'T' timeout, 'E' eintr, 'K' kill, 'S' stall
+    /// 'G' go, 'T' timeout, 'E' eintr, 'K' kill, 'S' stall, 'M' hold until nothing else can run (wake-up plan)
     pub v: char,
 }
 
@@ -281,6 +281,13 @@ pub struct Sim {
     /// count yields of script processes instead of state-changing yields of redo processes
     pub kill_scripts: bool,
     pub kill_fired: Option<String>,
+    /// wake-up plan: the k-th time a redo process that waits in select/poll
+    /// is chosen although it is ready, hold it back until nothing else can
+    /// run, so that everything that can become ready before it looks does
+    pub stall_at: Option<u64>,
+    /// number of ready select/poll wake-ups of redo processes chosen so far
+    pub wake_count: u64,
+    pub stall_fired: Option<String>,
     pct_change_points: Vec<u64>,
     pub wake_sets: BTreeMap<String, u64>,
     pub record_events: bool,
@@ -372,6 +379,9 @@ impl Sim {
             kill_at: None,
             kill_scripts: false,
             kill_fired: None,
+            stall_at: None,
+            wake_count: 0,
+            stall_fired: None,
             pct_change_points: pts,
             wake_sets: BTreeMap::new(),
             record_events: true,
@@ -1296,16 +1306,24 @@ impl Sim {
             if let Some(rp) = self.replay.as_ref() {
                 // replayed stall decisions
                 let k = self.decisions.len();
-                if k < rp.len() && rp[k].v == 'S' {
+                if k < rp.len() && (rp[k].v == 'S' || rp[k].v == 'M') {
                     let d = rp[k].clone();
                     self.decisions.push(d.clone());
                     if let Some(v) = (0..self.procs.len())
                         .find(|i| self.procs[*i].lid == d.p && self.procs[*i].alive())
                     {
-                        let until = self.step + self.knobs.stall_steps as u64;
+                        let until = if d.v == 'M' {
+                            // the recorded wake-up plan fired here
+                            self.stall_at = None;
+                            self.stall_fired = Some(format!("replayed hold of {}", d.p));
+                            u64::MAX
+                        } else {
+                            self.step + self.knobs.stall_steps as u64
+                        };
                         self.stalled.insert(v, until);
-                        *self.fault_counts.entry("stall".into()).or_insert(0) += 1;
-                        self.log(&d.p, EvKind::Fault, "stall".into());
+                        let name = if d.v == 'M' { "stall-at-wakeup" } else { "stall" };
+                        *self.fault_counts.entry(name.into()).or_insert(0) += 1;
+                        self.log(&d.p, EvKind::Fault, name.into());
                     } else {
                         self.replay_diverged = true;
                     }
@@ -1313,6 +1331,32 @@ impl Sim {
                 }
             }
             let (i, verdict) = self.choose(&en);
+            // wake-up plan
+            if verdict == 'G'
+                && self.procs[i].is_redo()
+                && self.procs[i].op.as_ref().map_or(false, |o| {
+                    o.blocking && (o.text.starts_with("select") || o.text.starts_with("poll"))
+                })
+            {
+                if self.stall_at == Some(self.wake_count) && en.len() > 1 {
+                    self.stall_at = None;
+                    self.wake_count += 1;
+                    self.stalled.insert(i, u64::MAX);
+                    *self.fault_counts.entry("stall-at-wakeup".into()).or_insert(0) += 1;
+                    let lid = self.procs[i].lid.clone();
+                    let what = format!(
+                        "hold {} at [{}] while {} other processes can run",
+                        self.procs[i].base_name(),
+                        self.procs[i].op.as_ref().unwrap().text,
+                        en.len() - 1
+                    );
+                    self.stall_fired = Some(what);
+                    self.decisions.push(Decision { p: lid.clone(), v: 'M' });
+                    self.log(&lid, EvKind::Fault, "stall-at-wakeup".into());
+                    continue;
+                }
+                self.wake_count += 1;
+            }
             // crash-point plan
             let counts = if self.kill_scripts {
                 self.procs[i].is_script()
